@@ -486,15 +486,30 @@ func suspicious(line, res string) bool {
 		return true
 	}
 	size := (len(f[len(f)-1]) - 1) / 2
+	if f[0] == "wkbn" { // the input is spread over the events
+		size = 0
+		for _, t := range f[2:] {
+			size += (len(t) - 1) / 2
+		}
+	}
 	per := 64
 	if f[0] == "json" {
 		per = 128
 	}
 	for _, t := range strings.Fields(res) {
+		var v int
 		if strings.HasPrefix(t, "A=") {
-			var a int
-			fmt.Sscanf(t[2:], "%d", &a)
-			return a > per*size+65536
+			fmt.Sscanf(t[2:], "%d", &v)
+			if v > per*size+65536 {
+				return true
+			}
+		}
+		// stack growth is measured process-wide and a goroutine stack shrunk by the collector grows
+		// again under whichever call comes next: beyond the Spec's bound (128*len + 1 MiB) the line is
+		// run again alone, so that the failing input reported is one that reproduces by itself
+		if strings.HasPrefix(t, "S=") {
+			fmt.Sscanf(t[2:], "%d", &v)
+			return v > 128*size+1048576
 		}
 	}
 	return false
